@@ -34,11 +34,11 @@ SPEC = dict(
     module="LMDist.C11",
     harness_bin="dist",
     ml_modules=["dist_model"],
-    n={"quick": 64, "thorough": 1500},
-    search_n={"quick": 192, "thorough": 1500},
+    n={"quick": 64, "thorough": 1000},
+    search_n={"quick": 192, "thorough": 1000},
     nontrivial=nontrivial,
     histogram=histogram,
-    rule="DNA (K=5) scoring matrices of width 1..8 (all 4^M / 5^M words enumerable; kind `large`: width 9..16, "
+    rule="DNA (K=5) scoring matrices of width 1..8 (all 4^M / 5^M words enumerable; kind `large`: width 9..12 quick / 9..16 thorough, "
          "structural checks and bit-exact replay only) and protein (K=21) matrices of width 1..3 (20^M / 21^M words) "
          "in 16 rotating kinds: random f32 cells, cells quantised to "
          "1/8..1 (ties, exact half steps), count matrices -> frequencies -> log-odds through the library, finite "
@@ -73,9 +73,11 @@ SPEC = dict(
         "under catch_unwind, dev profile with overflow checks)",
         "std's slice::binary_search_by as read from the installed toolchain source (branch-free loop), re-validated "
         "by the bit-exact comparison of score(p) on every run",
-        "the specification of probability: tail_exact / tailD (DistInst.v), the tail of a sum of independent "
-        "background-distributed symbols defined by recursion over the rows (law of total probability); proved equal "
-        "to the sum over the explicit table of all words for dyadic inputs (C11_tail_dyadic_correct)",
+        "the specification of probability: tail_words (DistInst.v) = sum over all K^M words of the product of the "
+        "background weights of their symbols, restricted to the words scoring >= t; the recursive form tail_exact "
+        "used in the theorems and (for dyadic inputs, as an integer word table) in the checker is proved equal to it "
+        "(C11_tail_is_word_sum, C11_tail_dyadic_correct); tailD / pmfD (distribution of the discretised score) are "
+        "defined by the same recursion over the rows",
         "modelled, not verified: dist.rs itself (hand-written Gallina model DistModel.v, tied by the bit-exact "
         "correspondence run on every case); the zip formulation of the inner k-loop is proved equal to the direct "
         "rendering of the Rust loop for every carrier (C11_kloop_is_rust_loop)",
